@@ -139,10 +139,10 @@ def ensure_facts(tier="quick", repo=None, quiet=False):
             os.rename(tmp, d)
             info["extracted"] = True
             info["extract_s"] = round(time.time() - t0, 1)
-            # keep the cache small: drop all but the 4 most recent trees
+            # keep the cache small: drop all but the 12 most recent trees
             ents = sorted((os.path.getmtime(os.path.join(CACHE, "facts", e)), e)
                           for e in os.listdir(os.path.join(CACHE, "facts")) if not e.endswith(".partial"))
-            for _, e in ents[:-4]:
+            for _, e in ents[:-12]:
                 shutil.rmtree(os.path.join(CACHE, "facts", e), ignore_errors=True)
         return d, info
     finally:
